@@ -80,6 +80,7 @@ def audit (s : State) : String :=
   else if s.nets.any (fun n =>
       (n.stat.map (·.1) ++ (s.pages.filter (fun p => p.net = n.id)).map (·.pgno)).any fun pg =>
         (n.getStat pg).nSub ≠ (s.pages.filter (fun p => p.net = n.id ∧ p.pgno = pg)).length) then "nsub"
+  else if !(decide ((s.pages.filter (fun p => p.pri ≠ .zombie)).map (fun p => (p.net, p.pgno, p.subno))).Nodup) then "dup-key"
   else "ok"
 
 def digest (s : State) : String :=
